@@ -61,7 +61,41 @@ fn rich(name: &str) -> Response {
         .add_submessage(SubMsg::reply_always(cosmwasm_std::CosmosMsg::Stargate { type_url: "/t".into(), value: Binary::from(vec![1u8, 2]) }, 10));
     #[cfg(feature = "cosmwasm_2_0")]
     let r = r.add_message(cosmwasm_std::CosmosMsg::Any(cosmwasm_std::AnyMsg { type_url: "/a".into(), value: Binary::from(vec![3u8]) }));
-    r
+    r.add_messages(every_other_variant())
+}
+
+/// One message of every remaining variant (of those this build has) of every message enum.
+#[allow(unused_mut, deprecated)]
+fn every_other_variant() -> Vec<cosmwasm_std::CosmosMsg> {
+    let mut v: Vec<cosmwasm_std::CosmosMsg> = vec![
+        WasmMsg::Instantiate { admin: Some("adm".into()), code_id: 7, msg: Binary::from(b"{}".to_vec()), funds: vec![coin(1, "ua")], label: "l".into() }.into(),
+        WasmMsg::Migrate { contract_addr: "c".into(), new_code_id: 9, msg: Binary::from(b"{}".to_vec()) }.into(),
+        WasmMsg::UpdateAdmin { contract_addr: "c".into(), admin: "a2".into() }.into(),
+        WasmMsg::Execute { contract_addr: "c2".into(), msg: Binary::default(), funds: vec![] }.into(),
+        BankMsg::Send { to_address: "t2".into(), amount: vec![] }.into(),
+    ];
+    #[cfg(feature = "cosmwasm_1_2")]
+    v.push(WasmMsg::Instantiate2 { admin: None, code_id: 8, label: "l2".into(), msg: Binary::from(b"{}".to_vec()), funds: vec![], salt: Binary::from(vec![9u8; 3]) }.into());
+    #[cfg(feature = "staking")]
+    {
+        v.push(cosmwasm_std::StakingMsg::Undelegate { validator: "v".into(), amount: coin(4, "ua") }.into());
+        v.push(cosmwasm_std::StakingMsg::Redelegate { src_validator: "v".into(), dst_validator: "v2".into(), amount: coin(3, "ua") }.into());
+        v.push(cosmwasm_std::DistributionMsg::SetWithdrawAddress { address: "w".into() }.into());
+    }
+    #[cfg(all(feature = "staking", feature = "cosmwasm_1_4"))]
+    v.push(cosmwasm_std::DistributionMsg::FundCommunityPool { amount: vec![coin(1, "ua")] }.into());
+    #[cfg(feature = "stargate")]
+    {
+        use cosmwasm_std::{IbcMsg, IbcTimeout, Timestamp};
+        v.push(IbcMsg::Transfer { channel_id: "channel-1".into(), to_address: "remote".into(), amount: coin(5, "ua"), timeout: IbcTimeout::with_timestamp(Timestamp::from_seconds(99)), memo: Some("m".into()) }.into());
+        v.push(IbcMsg::SendPacket { channel_id: "channel-2".into(), data: Binary::from(vec![1u8]), timeout: IbcTimeout::with_timestamp(Timestamp::from_seconds(100)) }.into());
+    }
+    #[cfg(all(feature = "stargate", feature = "cosmwasm_1_4"))]
+    {
+        use cosmwasm_std::{Decimal, VoteOption, WeightedVoteOption};
+        v.push(cosmwasm_std::GovMsg::VoteWeighted { proposal_id: 4, options: vec![WeightedVoteOption { option: VoteOption::Yes, weight: Decimal::percent(60) }, WeightedVoteOption { option: VoteOption::Abstain, weight: Decimal::percent(40) }] }.into());
+    }
+    v
 }
 
 fn w_execute(_d: DepsMut, _e: Env, _i: MessageInfo, _m: Empty) -> StdResult<Response> {
